@@ -83,20 +83,27 @@ def s2(ctx, rep):
             rep.check(re.search(r'parsed_data\s*\.\s*push\s*\(\s*\w+\s*\)', a['body']) is not None and a['bindings'] and a['bindings'][0]['uses'] > 0, 'S2', 'collect_result:Ok', 'parsed item pushed', 'collect_result drops successfully parsed items', site)
         if a['variants'] == ['Err']:
             rep.check(re.search(r'errors\s*\.\s*push', a['body']) is not None and a['bindings'] and a['bindings'][0]['uses'] > 0, 'S2', 'collect_result:Err', 'error recorded', 'collect_result discards parse errors: an annotated item that cannot be generated is silently omitted instead of reported', site)
-    p = ctx.fn('ParsedData::push', file='parser.rs')
+    p = ctx.fnx('ParsedData::push', file='parser.rs')
     ri = ctx.item('enum', 'RustItem')
-    ms = [m for m in p['matches'] if any(v.startswith('RustItem::') for a in m['arms'] for v in a['variants'])]
-    if not ms:
-        raise core.Incomplete('ParsedData::push: match not found')
+    item_param = next((q['name'] for q in p['params'] if q.get('ty') == 'RustItem'), None)
+    if item_param is None:
+        raise core.Incomplete('ParsedData::push: RustItem parameter not found')
+    # store events: `self.<vec>.push(x)` / `.extend(..)` whose argument is the payload of the item parameter
+    stores = {}
+    for c in p['calls']:
+        if c.get('f') in ('push', 'push_back', 'insert', 'extend') and c.get('recv') is not None and c.get('args'):
+            rv = vt.strip(c['recv'])
+            av = vt.strip(c['args'][-1])
+            if isinstance(rv, dict) and rv.get('k') == 'atom' and rv.get('root') == 'self' and len(rv.get('path', [])) == 1 \
+                    and isinstance(av, dict) and av.get('k') == 'payload' and isinstance(vt.strip(av.get('of')), dict) and vt.strip(av['of']).get('root') == item_param and not vt.strip(av['of']).get('path'):
+                stores.setdefault(str(av.get('variant', '')).split('::')[-1], []).append(rv['path'][0])
     targets = {}
     for v in ri['variants']:
-        arms = [a for a in ms[0]['arms'] if f"RustItem::{v['name']}" in a['variants']]
-        pushes = re.findall(r'self\s*\.\s*(\w+)\s*\.\s*push\s*\(\s*(\w+)\s*\)', arms[0]['body']) if arms else []
-        bound = arms[0]['bindings'][0]['name'] if arms and arms[0]['bindings'] else None
-        ok = len(pushes) == 1 and pushes[0][1] == bound
-        rep.check(ok, 'S2', f"push:RustItem::{v['name']}", f"→ self.{pushes[0][0] if pushes else '?'}", f"ParsedData::push does not store RustItem::{v['name']} (pushes: {pushes})", {'file': p['file'], 'line': p['line']})
+        got = stores.get(v['name'], [])
+        ok = len(got) == 1
+        rep.check(ok, 'S2', f"push:RustItem::{v['name']}", f"→ self.{got[0] if got else '?'}", f"ParsedData::push does not store RustItem::{v['name']} exactly once (stores: {got})", {'file': p['file'], 'line': p['line']})
         if ok:
-            targets[v['name']] = pushes[0][0]
+            targets[v['name']] = got[0]
     rep.check(len(set(targets.values())) == len(targets), 'S2', 'push:distinct-vectors', str(targets), f'ParsedData::push files two item kinds into the same vector: {targets}', {'file': p['file'], 'line': p['line']})
     for c in p['calls']:
         if c.get('f') in ('push',):
@@ -153,10 +160,11 @@ def s3(ctx, rep):
     # C03 is about the skip markers; --target-os filtering is C13's business.  With accept_target_os ≡ true (no target
     # list) is_skipped must reduce to "some attribute carries the bare `skip` path under serde or typeshare".
     red = no_target(sk['tail'])
-    txt = json.dumps(red) if isinstance(red, dict) else ''
-    ok2 = '"SERDE"' in txt and '"TYPESHARE"' in txt and '"skip"' in txt and '"any"' in txt and 'Meta :: Path' in txt
-    rep.check(ok2, 'S3', 'is_skipped:skip-marker', 'bare `skip` under serde or typeshare', f"is_skipped no longer looks for the bare path `skip` under both #[serde(..)] and #[typeshare(..)]: {vt.show(red)[:140] if isinstance(red, dict) else red}", site)
-    extra = [c for c in calls_in(red) if c.get('f') not in ('iter', 'any', 'chain', 'get_meta_items', 'is_ident', 'filter', 'filter_map', 'flat_map', 'map', 'into_iter')]
+    closed, open_ = pr.lookup_closed(ctx, 'is_skipped')
+    want = {('SERDE', 'skip', 'Path'), ('TYPESHARE', 'skip', 'Path')}
+    rep.check(closed == want and not open_, 'S3', 'is_skipped:skip-marker', 'bare `skip` under serde or typeshare', f"is_skipped looks for {sorted(closed)} {sorted(map(str, open_))} — expected exactly the bare path `skip` under #[serde(..)] and under #[typeshare(..)]", site)
+    lookups = {g['name'] for g in ctx.fns(file='parser.rs') if pr.lookup_summary(ctx, g['name'])}
+    extra = [c for c in calls_in(red) if c.get('f') not in ('iter', 'any', 'chain', 'get_meta_items', 'is_ident', 'filter', 'filter_map', 'flat_map', 'map', 'into_iter') and not (c.get('recv') is None and c.get('f') in lookups)]
     ok = isinstance(red, dict) and not extra
     rep.check(ok, 'S3', 'is_skipped:truth-table', 'without a target list: skipped ⇔ a skip marker is present', f"is_skipped (`{vt.show(sk['tail'])[:140]}`) does not reduce to the skip-marker test when no --target-os is given: residual `{vt.show(red)[:100] if isinstance(red, dict) else red}`{' uses ' + str(sorted({c.get('f') for c in extra})) if extra else ''}", site)
 
@@ -230,7 +238,7 @@ def s4(ctx, rep):
 def s5(ctx, rep):
     vecs = ['aliases', 'structs', 'enums', 'consts']
     for qual, file in (('Language::generate_types', 'language/mod.rs'), ('Go::generate_types', 'language/go.rs'), ('Python::generate_types', 'language/python.rs'), ('Scala::generate_types', 'language/scala.rs')):
-        d = ctx.fn(qual, file=file)
+        d = ctx.fnx(qual, file=file)
         site = {'file': d['file'], 'line': d['line']}
         data = next(p['name'] for p in d['params'] if p.get('ty') == 'ParsedData')
         text = json.dumps([c for c in d['calls']]) + json.dumps(d['loops']) + json.dumps(d['lets'])
